@@ -251,10 +251,7 @@ func ruleTruthfulAddresses(c *Ctx, rule string) {
 		if fnPkgPath(fn) != serverPath {
 			continue
 		}
-		root := fn
-		for root.Parent() != nil {
-			root = root.Parent()
-		}
+		root := w.bodyRoot(fn)
 		w.eachInstr(fn, func(in ssa.Instruction) {
 			al, ok := in.(*ssa.Alloc)
 			if !ok {
@@ -301,12 +298,25 @@ func ruleTruthfulAddresses(c *Ctx, rule string) {
 			case "Lifetime":
 				d := lit.fields["Duration"]
 				if d == nil {
+					// not a literal with a Duration: a Lifetime value obtained elsewhere. When it
+					// is sent as an attribute (boxed into a stun.Setter) its Duration is not
+					// known to be the timer's
+					sent := false
+					for _, r := range *al.Referrers() {
+						if _, isMI := r.(*ssa.MakeInterface); isMI {
+							sent = true
+						}
+					}
+					if sent {
+						c.Anchor(rule, fname(fn)+" lifetime")
+						c.Bad(rule, fname(fn), "LIFETIME", pos, "the LIFETIME attribute sent is a value whose Duration is not set from the duration that arms/resets the allocation timer")
+					}
 					return
 				}
 				c.Anchor(rule, fname(fn)+" lifetime")
 				// the same value must be the lifetime argument of CreateAllocation / Refresh
 				found := ""
-				for _, f2 := range withAnon(root) {
+				for _, f2 := range w.helpersOf(root) {
 					w.eachInstr(f2, func(in2 ssa.Instruction) {
 						call, ok := in2.(*ssa.Call)
 						if !ok {
@@ -419,7 +429,7 @@ func ruleRetransmission(c *Ctx, rule string) {
 	c.Anchor(rule, "existing allocation path")
 	nSucc, nMismatch := 0, 0
 	bad := ""
-	for _, f := range withAnon(h) {
+	for _, f := range w.helpersOf(h) {
 		w.eachInstr(f, func(in ssa.Instruction) {
 			g := w.guardedBy(in, get, -1, "nonnil", func(g *ssa.Call) bool { ok, _ := w.requestTuple(g.Call.Args[1], h); return ok })
 			if g == nil {
